@@ -163,7 +163,7 @@ impl Pager {
             r is Ok ==> final(self).cached().contains(frame),
             r matches Ok(i) ==> i == frame.id(),
             r is Ok ==> final(self).nextm@ == old(self).nextm@.insert(frame.id(), frame.next_link()),
-            final(self).written == old(self).written,      // unit pagerio: cache_frame.the_data_file_changes_only_at_a_checkpoint
+            final(self).written == old(self).written,      // unit nosteal: cache_frame.the_data_file_changes_only_at_a_checkpoint
     { unimplemented!() }
 
 //@fn crates/axmos-db/src/io/pager.rs | impl Pager | allocate_page
